@@ -189,44 +189,40 @@ def warn_rules(repo, res, rule="WARN"):
     envs = A.collect_envs(fn)
     pm = A.parent_map(fn.body)
     labels = {"undefined_nonterminals": "Undefined", "unused_nonterminals": "Unused", "unused_specializations": "Unused specialization"}
-    blocks = {}
-    for st in fn.body["stmts"]:
-        if st["k"] == "ExprStmt" and st["expr"]["k"] == "If":
-            c = st["expr"]["cond"]
-            txt = repo.text(fn.file, c)
-            for fld in labels:
-                if f".{fld}.is_empty()" in txt.replace(" ", "") and txt.strip().startswith("!"):
-                    blocks[fld] = st["expr"]
+    # anchored on the construction of the warning (WarnMsg::new("<label>")), not on the shape of the code around it: the top-level
+    # statement of aot that holds it is the warning's region, whether it is an `if !set.is_empty() { for .. }` or an iterator chain
     for fld, lab in labels.items():
         key = f"{rule}:{fq}:{fld}"
-        if fld not in blocks:
-            res.undecided(rule, key, f"no `if !validated.{fld}.is_empty()` block at top level of aot", fn.loc())
+        news = [c for c in P.find_calls(fn.body, names={"new"}) if c["args"] and c["args"][0]["k"] == "Lit" and c["args"][0]["v"] == lab]
+        if len(news) != 1:
+            res.undecided(rule, key, f"{len(news)} constructions of the {lab!r} warning in aot", fn.loc())
             continue
-        blk = blocks[fld]
-        loc = f"{fn.file}:{blk['l']}"
+        site = news[0]
+        idx = A.top_stmt_index(fn, site, pm)
+        region = fn.body["stmts"][idx]
+        loc = f"{fn.file}:{region['l']}"
         # harmless: no exit edge, nothing but stderr
-        bad = [n for n in A.walk(blk) if n["k"] in ("Return", "Try", "Break") or (n["k"] == "Call" and n["func"]["k"] == "Path" and P.last(n["func"]["path"]) in ("exit", "handle_error", "abort")) or (n["k"] == "Macro" and P.last(n["name"]) in ("panic", "unreachable", "todo", "write", "writeln", "println", "print"))]
-        res.check(not bad, rule, key + ":harmless", "no return / `?` / exit / panic / stdout write inside the warning block" if not bad else f"exit edges in warning block: {[b['k'] for b in bad]}", loc)
+        bad = [n for n in A.walk(region) if n["k"] in ("Return", "Try", "Break") or (n["k"] == "Call" and n["func"]["k"] == "Path" and P.last(n["func"]["path"]) in ("exit", "handle_error", "abort")) or (n["k"] == "Macro" and P.last(n["name"]) in ("panic", "unreachable", "todo", "write", "writeln", "println", "print"))]
+        res.check(not bad, rule, key + ":harmless", "no return / `?` / exit / panic / stdout write inside the warning's statement" if not bad else f"exit edges in the warning's statement: {[b['k'] for b in bad]}", loc)
         # one line per entry of .values(), label of this map
-        loops = [n for n in A.walk(blk) if n["k"] == "ForLoop"]
-        ok = len(loops) == 1
-        why = f"{len(loops)} loops"
-        if ok:
-            lp = loops[0]
-            it = A.resolve(lp["iter"], envs.get(id(lp)))
-            names = P.spine(it)
+        warns = [c for c in P.find_calls(region, methods={"warning"}) if any(x is site for x in A.walk(c["recv"]))]
+        from_values = no_filter = span_ok = False
+        for w in warns:
+            a0 = A.resolve(w["args"][0], envs.get(id(w)))
+            while a0[0] in ("ref", "deref"):
+                a0 = a0[1]
+            span_ok = a0[0] == "elem"
+            names = P.spine(a0)
             from_values = ".values" in names and f"field:{fld}" in names
-            no_filter = not any(x in names for x in (".filter", ".take", ".skip", ".dedup", ".truncate"))
-            new = [c for c in P.find_calls(lp["body"], names={"new"})]
-            lab_ok = any(c["args"] and c["args"][0]["k"] == "Lit" and c["args"][0]["v"] == lab for c in new)
-            warns = [c for c in P.find_calls(lp["body"], methods={"warning"})]
-            span_ok = False
-            for w in warns:
-                a0 = A.resolve(w["args"][0], envs.get(id(w)))
-                span_ok = a0[0] == "elem"
-            eps = [n for n in A.walk(lp["body"]) if n["k"] == "Macro" and P.last(n["name"]) == "eprintln"]
-            ok = from_values and no_filter and lab_ok and span_ok and len(eps) == 1 and not A.guards_of(eps[0], pm, stop=lp)
-            why = f"one eprintln per entry of validated.{fld}.values(), label {lab!r}" if ok else f"values={from_values} nofilter={no_filter} label={lab_ok} span={span_ok} eprintln={len(eps)}"
+            no_filter = not any(x in names for x in (".filter", ".take", ".skip", ".dedup", ".truncate", ".step_by", ".skip_while", ".take_while", ".filter_map"))
+        eps = [n for n in A.walk(region) if n["k"] == "Macro" and P.last(n["name"]) == "eprintln"]
+        unguarded = False
+        if len(eps) == 1:
+            gs = [g for g in A.guards_of(eps[0], pm) if g[0]["k"] in ("If", "Arm", "While") or g[0]["k"] == "Binary"]
+            # the only condition allowed around the print is the emptiness test of this very set
+            unguarded = all(g[0]["k"] == "If" and f".{fld}.is_empty()" in repo.text(fn.file, g[0]["cond"]).replace(" ", "") for g in gs)
+        ok = from_values and no_filter and span_ok and len(eps) == 1 and unguarded
+        why = f"one eprintln per entry of validated.{fld}.values(), label {lab!r}" if ok else f"values={from_values} nofilter={no_filter} span={span_ok} eprintln={len(eps)} unconditional={unguarded}"
         res.check(ok, rule, key + ":one-line-per-entry", why, loc)
     # `_` is exempted, nothing else is removed
     rem = [c for c in P.find_calls(fn.body, methods={"remove", "retain", "clear", "drain"})]
